@@ -19,7 +19,7 @@ Definition eBadCase : Z := 999.
 
 (* an element: key and the identity of the element object (the harness gives every element
    object a distinct number; BTreeDict values are those numbers) *)
-Definition elt := (Z * Z)%type.
+Notation elt := (Z * Z)%type.
 
 Inductive tree := Node (leaf : bool) (elts : list elt) (kids : list tree).
 
@@ -402,7 +402,7 @@ Fixpoint wf_node (t : nat) (h : nat) (isroot : bool) (n : tree) : bool :=
   | S h' =>
       if lf then (h' =? 0)%nat && match ks with [] => true | _ => false end
       else
-        negb (h' =? 0)%nat && (length ks =? S l)%nat && forallb (wf_node t h' false) ks
+        negb (h' =? 0)%nat && (1 <=? l)%nat && (length ks =? S l)%nat && forallb (wf_node t h' false) ks
   end.
 
 Fixpoint sorted_keys (l : list elt) : bool :=
@@ -472,7 +472,8 @@ Definition insert_element (b : btree) (e : elt) (in_order : bool) : res (btree *
     do (root2, o) <- insert_tree (b_t b) in_order (b_root b) e;
     Ok (mkB (b_t b) root2 (match o with None => b_size b + 1 | Some _ => b_size b end) false (b_inorder b), o).
 
-(* root collapse of BTree._delete *)
+(* root collapse of BTree._delete (in a `finally`: also when nothing was deleted or ValueError
+   is raised - rebalancing on the way down may have emptied the root) *)
 Definition collapse_root (root : tree) : res tree :=
   let '(Node lf es ks) := root in
   match es with
@@ -486,10 +487,8 @@ Definition collapse_root (root : tree) : res tree :=
 
 Definition delete_tree (t : nat) (root : tree) (key : Z) (exact : option Z) : res (tree * dout) :=
   do (root1, o) <- del t (depth root) true root key exact;
-  match o with
-  | DDel _ => do root2 <- collapse_root root1; Ok (root2, o)
-  | _ => Ok (root1, o)
-  end.
+  do root2 <- collapse_root root1;
+  Ok (root2, o).
 
 (* returns the tree after the call (also when ValueError is raised: the rebalancing done on the
    way down stays) and the outcome *)
